@@ -109,6 +109,17 @@ func flatNode(n resolve.Node) string {
 	return s
 }
 
+// resolveLater is resolveOne for the phases after G0: a timeout of a root that
+// finished solo is retried once, alone, with a longer deadline, so that a
+// loaded machine is not mistaken for a history-dependent result.
+func resolveLater(r resolve.Resolver, sys resolve.System, root rootRef, want string) string {
+	got := resolveOne(r, sys, root, laterDeadline)
+	if got == "timeout" && want != "timeout" {
+		got = resolveOne(r, sys, root, 2*laterDeadline)
+	}
+	return got
+}
+
 func resolveOne(r resolve.Resolver, sys resolve.System, root rootRef, d time.Duration) (out string) {
 	defer func() {
 		if rec := recover(); rec != nil {
@@ -225,6 +236,14 @@ func dumpClient(c resolve.Client, u *universe) string {
 		}
 		return rqs[i].v < rqs[j].v
 	})
+	if len(rqs) > 800 { // very large universes: an even sample of the requirement probes
+		step := len(rqs)/800 + 1
+		var sub []rq
+		for i := 0; i < len(rqs); i += step {
+			sub = append(sub, rqs[i])
+		}
+		rqs = sub
+	}
 	for _, r := range rqs {
 		vk := resolve.VersionKey{PackageKey: resolve.PackageKey{System: sys, Name: r.n}, VersionType: resolve.Requirement, Version: r.v}
 		ms, err := c.MatchingVersions(ctxBG, vk)
@@ -248,6 +267,7 @@ type histOut struct {
 	live                           []rootRef // roots (in op order, with repetitions) whose solo run finished
 	dropped                        int
 	beforeAfter, hist, perm, conc  bool
+	skipped                        bool   // perm and conc not run because an earlier phase failed
 	firstBad                       string // first disagreement, human-readable
 	nontrivial                     int    // roots whose graph has an edge
 }
@@ -264,6 +284,38 @@ func runHistory(u *universe, roots []rootRef, permSeed int64, phases int) histOu
 		}
 	}
 	sys := u.Sys
+
+	// race-detector mode (phases == 8): only the concurrent section, nothing compared.
+	if phases == 8 {
+		c := u.client(nil)
+		var tasks []rootRef
+		for len(tasks) < 2*maxConc && len(roots) > 0 {
+			tasks = append(tasks, roots...)
+		}
+		if len(tasks) > 4*maxConc {
+			tasks = tasks[:4*maxConc]
+		}
+		shared := newResolver(sys, c)
+		var wg sync.WaitGroup
+		gate := make(chan struct{})
+		for w := 0; w < maxConc; w++ {
+			wg.Add(1)
+			go func(w int) {
+				defer wg.Done()
+				r := shared
+				if sys == resolve.PyPI {
+					r = newResolver(sys, c)
+				}
+				<-gate
+				for i := w; i < len(tasks); i += maxConc {
+					resolveOne(r, sys, tasks[i], soloDeadline)
+				}
+			}(w)
+		}
+		close(gate)
+		wg.Wait()
+		return o
+	}
 
 	// (ii) every distinct root once on a fresh client and a fresh resolver.
 	to := 0
@@ -297,7 +349,7 @@ func runHistory(u *universe, roots []rootRef, permSeed int64, phases int) histOu
 		r := newResolver(sys, c)
 		for pass := 0; pass < 2 && !over(); pass++ {
 			for i, rt := range o.live {
-				got := resolveOne(r, sys, rt, laterDeadline)
+				got := resolveLater(r, sys, rt, o.g0[rt])
 				if got != o.g0[rt] {
 					o.hist = false
 					note("history: pass %d position %d root %s@%s\nfresh:\n%s\nshared:\n%s", pass, i, rt.Name, rt.Version, o.g0[rt], got)
@@ -320,6 +372,13 @@ func runHistory(u *universe, roots []rootRef, permSeed int64, phases int) histOu
 	}
 	if over() {
 		o.timeout = true
+		return o
+	}
+
+	// A history that already failed is not run further (under a defect the
+	// remaining phases can be slow); the skipped flags print as "-".
+	if !(o.beforeAfter && o.hist) {
+		o.skipped = true
 		return o
 	}
 
@@ -346,7 +405,7 @@ func runHistory(u *universe, roots []rootRef, permSeed int64, phases int) histOu
 					continue
 				}
 				seen[rt] = true
-				got := resolveOne(newResolver(sys, c), sys, rt, laterDeadline)
+				got := resolveLater(newResolver(sys, c), sys, rt, o.g0[rt])
 				if got != o.g0[rt] {
 					o.perm = false
 					note("insertion order %v: root %s@%s\nuniverse order:\n%s\npermuted:\n%s", perm, rt.Name, rt.Version, o.g0[rt], got)
@@ -387,7 +446,7 @@ func runHistory(u *universe, roots []rootRef, permSeed int64, phases int) histOu
 				}
 				<-gate
 				for i := w; i < len(tasks); i += maxConc {
-					results[i] = resolveOne(r, sys, tasks[i], laterDeadline)
+					results[i] = resolveLater(r, sys, tasks[i], o.g0[tasks[i]])
 				}
 			}(w)
 		}
@@ -453,8 +512,12 @@ func (o *histOut) line() string {
 	for _, k := range ks {
 		fmt.Fprintf(h, "%q %q\n%s\n", k.Name, k.Version, o.g0[k])
 	}
+	pf, cf := b01(o.perm), b01(o.conc)
+	if o.skipped {
+		pf, cf = "-", "-"
+	}
 	return fmt.Sprintf("ok g0=%s n=%d nt=%d to=%d before=after:%s hist:%s perm:%s conc:%s",
-		hex.EncodeToString(h.Sum(nil))[:12], len(ks), o.nontrivial, o.dropped, b01(o.beforeAfter), b01(o.hist), b01(o.perm), b01(o.conc))
+		hex.EncodeToString(h.Sum(nil))[:12], len(ks), o.nontrivial, o.dropped, b01(o.beforeAfter), b01(o.hist), pf, cf)
 }
 
 // parseHistory decodes the fields after "history".
